@@ -58,6 +58,10 @@ CHECKS = {
    text="Universal Coq theorems about a certified product checker (Reg/Scanner.v): for ANY definition list, automaton and terminal map, if the check evaluates to true then for EVERY text the state reached is accepting iff some definition matches and is attributed to the one terminal that must win (only match, or the single literal among several), and no text is in conflict; a reported conflict witness is a real conflict; a string literal denotes its own characters with escapes resolved. Per explored definition set (disjoint, identical-language, keyword/identifier, prefix chains, nested, overlapping with/without a tie-breaking literal, escaped literals, predefined patterns), kernel-evaluated on the (automaton, terminal map) or conflict verdict dumped from Spec.DFA(): full product of the definitions' partial-derivative automata, not string sampling.",
    note=TB + "CombineDFA is the dependency's and is validated per instance; the per-definition expressions are the C02 model of each pattern (code-faithful about NUL). D4 was found by this check and fixed.",
    tech="certified product checker (all texts) per dumped scanner automaton; Coq theorems for the ownership rule, conflicts and literal denotation"),
+ "C13": dict(cat="proof",
+   text="Coq theorem for EVERY buffer half size n>=1 and EVERY NUL-free file: reading sequentially through the two-half reader (model of moorara/algo lexer/input, copied in templates/input.go.tmpl) returns exactly the file's bytes and then end of input — independent of boundaries and length (read_all_correct, with load/sentinel/sticky-error semantics). The model is tied to the real reader by replaying random files and Next/Retract scripts at half sizes 1..6. Known finding D14 (Retract at a half boundary reloads the half: input skipped, or an endless Lexeme loop) is a kernel-evaluated witness theorem and paddings are classified by the exact predicate 'a lexeme's look-ahead byte is the last byte of a half'. Layout invariance (separators, comments, final newline) and the padding sweep (every alignment in the listed ranges against both boundaries; all of 0..2*4096+64 in the thorough tier) compare the derived specification of the real pipeline; the scanner model's token signature of each layout pair is evaluated by the kernel.",
+   note=TB + "Single-byte characters only in the reader model; Retract is modelled and witnessed but the refinement under the scanner protocol is not proved (partial); layout invariance of the token stream is per layout, not a universal theorem.",
+   tech="Coq proof (read_all_correct, all n and files) + witness theorems for D14/D13 + differential sweeps (reader scripts, layouts, paddings)"),
 }
 
 ORDER = sorted(CHECKS)
